@@ -3,10 +3,25 @@
      partitura/io/importmidi.py: load_performance_midi, adjust_time, note_hash
    as the code is after the repairs of D11 (list input), D12 (tempo changes ordered by tick)
    and of the track renumbering order.  Definitions only; proofs in Proofs/C06*.v.
-   Seconds are exact rationals, ticks are integers; sec_to_tick is Model.C12's. *)
+   Seconds are exact rationals, ticks are integers.  The property asks for "the nearest tick":
+   the exporter's rounding is modelled with a rule for exact half-way positions (rule 0 = half to
+   even, what np.round does and what Model.C12.sec_to_tick is; 1 = up; 2 = down; other = half to
+   odd), so that a different but still nearest choice at exact ties is not reported. *)
 From PV Require Import Lib.Base Lib.Round Model.C12.
-From Coq Require Import QArith.
+From Coq Require Import QArith Qround.
 #[local] Open Scope Z_scope.
+
+Definition tie_up (rule f : Z) : bool :=
+  if rule =? 0 then Z.odd f else if rule =? 1 then true else if rule =? 2 then false else Z.even f.
+Definition round_tie (rule : Z) (x : Q) : Z :=
+  let f := Qfloor x in
+  match Qcompare (x - inject_Z f) half with
+  | Lt => f
+  | Gt => f + 1
+  | Eq => if tie_up rule f then f + 1 else f
+  end.
+Definition sec_to_tick_r (rule ppq mpq : Z) (t : Q) : Z :=
+  round_tie rule (inject_Z (1000000 * ppq) * t / inject_Z mpq).
 
 (* MIDI messages; key signatures and the other meta messages are interned by the harness *)
 Inductive msg :=
@@ -60,8 +75,8 @@ Definition ev_track (e : ev) : Z := fst (fst e).
 Definition ev_tick (e : ev) : Z := snd (fst e).
 
 Section Save.
-  Variables (ppq mpq : Z).
-  Definition q (t : Q) : Z := sec_to_tick ppq mpq t.
+  Variables (rule ppq mpq : Z).
+  Definition q (t : Q) : Z := sec_to_tick_r rule ppq mpq t.
   Definition emit_item (i : pitem) : ev := (pi_track i, q (pi_time i), pi_msg i).
   Definition emit_note (n : pnote) : list ev :=
     [(pn_track n, q (pn_on n), NoteOn (pn_ch n) (pn_pitch n) (pn_vel n));
@@ -221,7 +236,10 @@ Definition seconds_spec (ppq : Z) (tc : list (Z * Z)) (tick : Z) : Q :=
   (inject_Z (sum_from (tempo_at tc) 0 (Z.to_nat tick)) / inject_Z (1000000 * ppq))%Q.
 
 (* =====================================================================================
-   checkers for the correspondence (harness/props/c06.py) *)
+   checkers for the correspondence (harness/props/c06.py).  They compare what C06 names and no
+   more: multisets of timed messages per file track, the notes the message loop pairs, the order
+   of the ids; not the order of unrelated messages at one tick, not the tick of the default
+   program changes, not the list order of controls. *)
 Fixpoint forall2b {A B} (f : A -> B -> bool) (a : list A) (b : list B) : bool :=
   match a, b with
   | [], [] => true
@@ -231,37 +249,110 @@ Fixpoint forall2b {A B} (f : A -> B -> bool) (a : list A) (b : list B) : bool :=
 Definition dm_eqb (a b : Z * msg) : bool := (fst a =? fst b) && msg_eqb (snd a) (snd b).
 Definition tracks_eqb (a b : list (list (Z * msg))) : bool := forall2b (forall2b dm_eqb) a b.
 
-(* (ppq, mpq, merge, parts, observed tracks): the saved file's messages *)
+(* multisets as lists *)
+Section MSet.
+  Context {A : Type} (eqb : A -> A -> bool).
+  Fixpoint remove1 (x : A) (l : list A) : option (list A) :=
+    match l with
+    | [] => None
+    | y :: r => if eqb x y then Some r else match remove1 x r with Some r' => Some (y :: r') | None => None end
+    end.
+  (* b minus a; None when a is not contained in b *)
+  Fixpoint msub (a b : list A) : option (list A) :=
+    match a with
+    | [] => Some b
+    | x :: r => match remove1 x b with Some b' => msub r b' | None => None end
+    end.
+  Definition mset_eqb (a b : list A) : bool := match msub a b with Some [] => true | _ => false end.
+End MSet.
+
+Definition lnote_eqb (a b : lnote) : bool :=
+  (ln_pitch a =? ln_pitch b) && (ln_vel a =? ln_vel b) && (ln_ch a =? ln_ch b) && (ln_on a =? ln_on b) && (ln_off a =? ln_off b).
+Fixpoint sorted_by {A} (leb : A -> A -> bool) (l : list A) : bool :=
+  match l with
+  | x :: ((y :: _) as r) => leb x y && sorted_by leb r
+  | _ => true
+  end.
+
+(* the messages exactly as save_performance_midi writes them today (order within a tick, tick of
+   the default programs): reported as a count only *)
+Definition check_save_exact (c : Z * Z * bool * list ppart * list (list (Z * msg))) : bool :=
+  let '(ppq, mpq, merge, ps, obs) := c in tracks_eqb (save 0 ppq mpq merge ps) obs.
+
+Definition is_aux (m : msg) : bool := match m with EndOfTrack | Tempo _ => true | _ => false end.
+Definition strip_aux (l : list (Z * msg)) : list (Z * msg) := filter (fun e => negb (is_aux (snd e))) l.
+(* (track, channel) pairs that may carry a default program 0: those of the controls and notes of a
+   part without program changes *)
+Definition default_pairs (ps : list ppart) : list (Z * Z) :=
+  flat_map (fun p => match pp_progs p with
+                     | _ :: _ => []
+                     | [] => map (fun i => (pi_track i, msg_ch (pi_msg i))) (pp_ctrls p)
+                             ++ map (fun n => (pn_track n, pn_ch n)) (pp_notes p)
+                     end) ps.
+Definition is_default_pc (allowed : list Z) (e : Z * msg) : bool :=
+  match snd e with PC ch 0 => zmem ch allowed | _ => false end.
+
+(* one file track against the model with a given tie rule:
+   - its timed messages (set_tempo / end_of_track aside) are, as a multiset, the explicit events of
+     the performance on that track plus, possibly, default programs on allowed channels;
+   - the message loop pairs the same notes from it as from the model's track *)
+Definition check_save_track (explicit : list (Z * msg)) (allowed : list Z) (model obs : list (Z * msg)) : bool :=
+  let oabs := undelta 0 obs in
+  match msub dm_eqb explicit (strip_aux oabs) with
+  | Some rest => forallb (is_default_pc allowed) rest
+  | None => false
+  end
+  && mset_eqb lnote_eqb (pair_notes [] (undelta 0 model)) (pair_notes [] oabs).
+
+Definition check_save_rule (rule ppq mpq : Z) (merge : bool) (ps : list ppart) (obs : list (list (Z * msg))) : bool :=
+  let model := save rule ppq mpq merge ps in
+  let evs := flat_map (emit_part_body rule ppq mpq) ps in
+  let trs := sorted_uniq (map ev_track (emit_parts rule ppq mpq [] ps)) in
+  let merged := merge && (1 <? Z.of_nat (List.length trs)) in
+  let dp := default_pairs ps in
+  let strip := map (fun e : ev => (ev_tick e, snd e)) in
+  let groups := if merged then [(strip evs, map snd dp)]
+                else map (fun tr => (strip (filter (fun e => ev_track e =? tr) evs),
+                                     map snd (filter (fun x => fst x =? tr) dp))) trs in
+  forall2b (fun g mo => check_save_track (fst g) (snd g) (fst mo) (snd mo))
+           groups (combine model obs)
+  && (List.length model =? List.length obs)%nat.
+
+(* the tempo of the file: every set_tempo carries mpq and one of them is at tick 0 *)
+Definition check_save_tempo (mpq : Z) (obs : list (list (Z * msg))) : bool :=
+  let tempi := flat_map (fun t => tempo_events (undelta 0 t)) obs in
+  forallb (fun e => snd e =? mpq) tempi && existsb (fun e => fst e =? 0) tempi.
+
 Definition check_save (c : Z * Z * bool * list ppart * list (list (Z * msg))) : bool :=
-  let '(ppq, mpq, merge, ps, obs) := c in tracks_eqb (save ppq mpq merge ps) obs.
+  let '(ppq, mpq, merge, ps, obs) := c in
+  check_save_tempo mpq obs
+  && existsb (fun rule => check_save_rule rule ppq mpq merge ps obs) [0; 1; 2; 3].
 
 Definition q_close9 (model impl : Q) : bool :=
   Qle_bool (Qabs.Qabs (impl - model)) (Qabs.Qabs model * (1 # 1000000000) + (1 # 1000000000000))%Q.
 
-(* observed part: file track, notes in id order (pitch, vel, ch, on tick, off tick, on s, off s),
+(* observed part: notes in id order (pitch, vel, ch, on tick, off tick, on s, off s),
    controls / programs (tick, message, seconds), key, time, meta (tick, message) *)
 Definition onote := (Z * Z * Z * Z * Z * Q * Q)%type.
-Definition opart := (Z * list onote * list (Z * msg * Q) * list (Z * msg * Q)
+Definition opart := (list onote * list (Z * msg * Q) * list (Z * msg * Q)
                      * list (Z * msg) * list (Z * msg) * list (Z * msg))%type.
+Definition onote_l (x : onote) : lnote := let '(pi, ve, ch, t1, t2, _, _) := x in mkLN pi ve ch t1 t2.
 Definition check_load (c : Z * Z * bool * list (list (Z * msg)) * list opart) : bool :=
   let '(ppq, dmpq, merge, tracks, obs) := c in
   let '(parts, tc) := load dmpq merge tracks in
   let sec := adjust_time ppq tc in
+  let timed_ok := forallb (fun x : Z * msg * Q => q_close9 (sec (fst (fst x))) (snd x)) in
   forall2b (fun (p : lpart) (o : opart) =>
-      let '(tr, ons, ocs, ops, oks, ots, oms) := o in
-      (lp_track p =? tr) &&
-      forall2b (fun (n : lnote) (x : onote) =>
-          let '(pi, ve, ch, t1, t2, s1, s2) := x in
-          (ln_pitch n =? pi) && (ln_vel n =? ve) && (ln_ch n =? ch) && (ln_on n =? t1) && (ln_off n =? t2)
-          && q_close9 (sec (ln_on n)) s1 && q_close9 (sec (ln_off n)) s2) (lp_notes p) ons &&
-      forall2b (fun (e : Z * msg) (x : Z * msg * Q) => dm_eqb e (fst x) && q_close9 (sec (fst e)) (snd x)) (lp_ctrls p) ocs &&
-      forall2b (fun (e : Z * msg) (x : Z * msg * Q) => dm_eqb e (fst x) && q_close9 (sec (fst e)) (snd x)) (lp_progs p) ops &&
-      forall2b dm_eqb (lp_keys p) oks && forall2b dm_eqb (lp_times p) ots && forall2b dm_eqb (lp_metas p) oms)
+      let '(ons, ocs, ops, oks, ots, oms) := o in
+      (* the notes, as a multiset, are those the message loop pairs; their id order is an order
+         by (onset, pitch, offset, channel); their seconds are the integral of the tempo map *)
+      mset_eqb lnote_eqb (lp_notes p) (map onote_l ons) && sorted_by lnote_leb (map onote_l ons) &&
+      forallb (fun x : onote => let '(_, _, _, t1, t2, s1, s2) := x in q_close9 (sec t1) s1 && q_close9 (sec t2) s2) ons &&
+      mset_eqb dm_eqb (lp_ctrls p) (map fst ocs) && timed_ok ocs &&
+      mset_eqb dm_eqb (lp_progs p) (map fst ops) && timed_ok ops &&
+      mset_eqb dm_eqb (lp_keys p) oks && mset_eqb dm_eqb (lp_times p) ots && mset_eqb dm_eqb (lp_metas p) oms)
     parts obs.
 
-(* the model of load applied to the model of save returns the quantised notes (evaluated on the
-   sampled cases; proved for monophonic tracks in Proofs/C06.v) *)
-Definition quantised (ppq mpq : Z) (n : pnote) : lnote :=
-  mkLN (pn_pitch n) (pn_vel n) (pn_ch n) (q ppq mpq (pn_on n)) (q ppq mpq (pn_off n)).
-Definition lnote_eqb (a b : lnote) : bool :=
-  (ln_pitch a =? ln_pitch b) && (ln_vel a =? ln_vel b) && (ln_ch a =? ln_ch b) && (ln_on a =? ln_on b) && (ln_off a =? ln_off b).
+(* the notes of a performance as the loader of the saved file has to return them *)
+Definition quantised (rule ppq mpq : Z) (n : pnote) : lnote :=
+  mkLN (pn_pitch n) (pn_vel n) (pn_ch n) (q rule ppq mpq (pn_on n)) (q rule ppq mpq (pn_off n)).
